@@ -112,6 +112,11 @@ type Channel struct {
 	Q              *util.Queue
 	Errs           chan error
 	readLoopExited bool
+	// readLoopDone is closed when the read goroutine started by Open has returned.
+	readLoopDone chan struct{}
+
+	closeLock sync.Mutex
+	closed    bool
 
 	ChannelLog io.Writer
 }
@@ -136,6 +141,8 @@ func (c *Channel) Open() (reterr error) {
 	}()
 
 	c.l.Debug("starting channel read loop")
+
+	c.readLoopDone = make(chan struct{})
 
 	go c.read()
 
@@ -184,8 +191,20 @@ func (c *Channel) Open() (reterr error) {
 func (c *Channel) Close() error {
 	c.l.Info("channel closing...")
 
+	c.closeLock.Lock()
+
+	if c.closed {
+		// closing twice is a no-op rather than a panic
+		c.closeLock.Unlock()
+
+		return nil
+	}
+
+	c.closed = true
+
+	c.closeLock.Unlock()
+
 	verifhook.Point("chan.close.entry")
-	close(c.Errs)
 
 	ch := make(chan struct{})
 
@@ -195,7 +214,11 @@ func (c *Channel) Close() error {
 			defer close(ch)
 
 			verifhook.Point("chan.close.helper.send")
-			c.done <- struct{}{}
+			select {
+			case c.done <- struct{}{}:
+			case <-c.readLoopDone:
+				// the read loop returned on its own (eof) after we checked, nobody is left to signal
+			}
 			verifhook.Point("chan.close.helper.sent")
 		}()
 	} else {
